@@ -382,6 +382,7 @@ func TestC13(t *testing.T) {
 
 	ev.RapidChecks(ev.Pick(200000, 5000000))
 	ev.RapidSeed(13)
+	var early []Case
 	rapid.Check(t, func(rt *rapid.T) {
 		var c Case
 		switch rapid.IntRange(0, 9).Draw(rt, "kind") {
@@ -428,10 +429,22 @@ func TestC13(t *testing.T) {
 		if ev.SampleN() < 6 {
 			ev.Sample(c)
 		}
+		if len(early) < 400 {
+			early = append(early, c)
+		}
 		if k, w := check(c); k != "" {
 			ev.Fail(rt, "lab", k, w, c)
 		}
 	})
+	// the first 400 generated cases once more, after everything else has been asked: what the library may have
+	// remembered in the meantime (memos, caches that filled up and evicted, adapted sizes) must not change them
+	for _, c := range early {
+		ev.Eval(1)
+		if k, w := check(c); k != "" {
+			ev.Violation("lab", k, "asked again after many other calls: "+w, c)
+			break
+		}
+	}
 	if ev.Violations() > 0 {
 		t.Fail()
 	}
